@@ -203,6 +203,14 @@ pub fn ops_hostile() -> Vec<Op> {
         Op::MkdirP(s("/../b")),
         Op::WriteAll(s("/"), b"x".to_vec()),
         Op::AppendAll(s(""), b"y".to_vec()),
+        // handles opened on the root, on a directory and on nothing
+        Op::WriteHandle(s("/"), vec![b"r".to_vec()], vec![true]),
+        Op::AppendHandle(s("/.."), vec![b"r".to_vec()], vec![false]),
+        Op::WriteHandle(s("/a"), vec![], vec![]),
+        Op::WriteHandle(s(""), vec![b"r".to_vec()], vec![false]),
+        Op::MkfileM(s("/"), 0o600),
+        Op::WriteLines(s("/"), vec![s("r")]),
+        Op::AppendLine(s("/"), s("r")),
         Op::Remove(s("/")),
         Op::Remove(s("")),
         Op::RemoveAll(s("/")),
